@@ -876,8 +876,10 @@ class SymTable:
 # ----------------------------------------------------------------------------------------------- explorer
 
 class Explorer:
-    def __init__(self, W=136, max_paths=200000, timeout_ms=120000, allow_symmul=False, budget_s=None):
+    def __init__(self, W=136, max_paths=200000, timeout_ms=120000, allow_symmul=False, budget_s=None, incremental=True):
         self.W = W
+        self.incremental = incremental
+        self.optimistic = False      # True: no feasibility checks at branches (infeasible paths are discharged vacuously)
         self.max_paths = max_paths
         self.timeout_ms = timeout_ms
         self.allow_symmul = allow_symmul
@@ -927,9 +929,11 @@ class Explorer:
     def assume(self, c):
         if isinstance(c, SBool):
             self._add(c.t)
+            if self.optimistic:
+                return
             if self._check() != z3.sat:
                 raise PathAbort()
-            self.model = self.solver.model()
+            self.model = self._model()
         elif not c:
             raise PathAbort()
 
@@ -943,16 +947,18 @@ class Explorer:
     # --- solver plumbing
     def _add(self, c):
         self.pc.append(c)
-        self.solver.add(c)
+        if self.incremental:
+            self.solver.add(c)
         self.model = None
 
     def _check(self, *assumptions):
         if self.budget_s is not None and time.time() - self.t0 > self.budget_s:
             raise EngineLimit("time budget of %ss exhausted" % self.budget_s)
         t0 = time.time()
-        r = self.solver.check(*assumptions)
-        self.stats['queries'] += 1
-        self.stats['solver_s'] += time.time() - t0
+        r = self.solver.check(*assumptions) if self.incremental else z3.unknown
+        if self.incremental:
+            self.stats['queries'] += 1
+            self.stats['solver_s'] += time.time() - t0
         if r == z3.unknown:
             # second opinion from a fresh (non-incremental) solver
             s = z3.Solver()
@@ -963,11 +969,22 @@ class Explorer:
             r = s.check()
             self.stats['queries'] += 1
             self.stats['solver_s'] += time.time() - t0
+            if DEBUG and time.time() - t0 > 1.0:
+                self._slow = getattr(self, '_slow', 0) + 1
+                with open('/tmp/symx_slow_%d.smt2' % self._slow, 'w') as f:
+                    f.write('; %s %.1fs\n' % (r, time.time() - t0))
+                    for c in self.pc:
+                        f.write('; PC %s\n' % c.sexpr().replace('\n', ' '))
+                    for c in assumptions:
+                        f.write('; AS %s\n' % c.sexpr().replace('\n', ' '))
             if r == z3.sat:
                 self._fresh_model = s.model()
             if r == z3.unknown:
                 self.stats['unknown'] += 1
-                raise EngineLimit("solver unknown")
+                if DEBUG:
+                    with open('/tmp/symx_unknown.smt2', 'w') as f:
+                        f.write(s.to_smt2())
+                raise EngineLimit("solver unknown (%s)" % s.reason_unknown())
         else:
             self._fresh_model = None
         return r
@@ -980,6 +997,9 @@ class Explorer:
         self.stats['decisions'] += 1
         if i < len(self.prefix):
             d = self.prefix[i]
+        elif self.optimistic:
+            d = True
+            self.pending.append(self.trace + [False])
         else:
             side = None
             m = self.model
@@ -1020,7 +1040,8 @@ class Explorer:
         c = cond if d else z3.Not(cond)
         keep = self.model if i >= len(self.prefix) else None
         self.pc.append(c)
-        self.solver.add(c)
+        if self.incremental:
+            self.solver.add(c)
         self.model = keep          # the cached model satisfies the side we follow (by construction above)
         if DEBUG and self.model is not None:
             assert z3.is_true(self.model.eval(c, model_completion=True)), 'stale model'
@@ -1037,7 +1058,8 @@ class Explorer:
                 self.trace.append(('c', val, d))
                 c = (v.t == val) if d else (v.t != val)
                 self.pc.append(c)
-                self.solver.add(c)
+                if self.incremental:
+                    self.solver.add(c)
                 self.model = None
                 if d:
                     return val
@@ -1046,14 +1068,15 @@ class Explorer:
                 if self._check() != z3.sat:
                     raise PathAbort()
                 self.model = self._model()
-            val = self.model.eval(v.t, model_completion=True).as_signed_long()
+            val = _num_value(self.model.eval(v.t, model_completion=True))
             self.stats['decisions'] += 1
             r = self._check(v.t != val)
             if r == z3.sat:
                 self.pending.append(self.trace + [('c', val, False)])
             self.trace.append(('c', val, True))
             self.pc.append(v.t == val)
-            self.solver.add(v.t == val)
+            if self.incremental:
+                self.solver.add(v.t == val)
             return val
 
     # --- obligations
@@ -1108,9 +1131,26 @@ class Explorer:
         cex.update({'choice:' + k: v for k, v in self.choices.items()})
         return cex
 
+    def fresh_id(self):
+        self._fresh = getattr(self, '_fresh', 0) + 1
+        return self._fresh
+
+    def lint(self, name, lo, hi):
+        from . import lia
+        v = lia.LInt(z3.Int(name), lo, hi)
+        self._add(z3.And(v.t >= lo, v.t <= hi))
+        self.inputs[name] = v
+        return v
+
     def eval(self, v, m):
         if isinstance(v, SInt):
             return m.eval(v.t, model_completion=True).as_signed_long()
+        if type(v).__name__ == 'LInt':
+            return m.eval(v.t, model_completion=True).as_long()
+        if type(v).__name__ == 'SFloat':
+            from fractions import Fraction
+            n = self.eval(v.num, m)
+            return float(Fraction(n, v.den) * Fraction(2) ** v.exp2)
         if isinstance(v, SBool):
             return bool(m.eval(v.t, model_completion=True))
         if isinstance(v, SBytes):
@@ -1135,11 +1175,72 @@ class Explorer:
             return self._model()
         return self.model
 
+    def _eval_witness(self, tries=2):
+        """solver-light witness for optimistic/LIA paths: solve only the constraints that mention input variables
+        alone (cheap), extend the assignment through the recorded definitions (fresh quotient/remainder variables are
+        functions of the inputs) and check the whole path condition by evaluation"""
+        in_ids = {}
+        for v in self.inputs.values():
+            t = getattr(v, 't', None)
+            if t is not None and z3.is_const(t):
+                in_ids[t.get_id()] = t
+
+        def only_inputs(e):
+            stack, seen = [e], set()
+            while stack:
+                x = stack.pop()
+                i = x.get_id()
+                if i in seen:
+                    continue
+                seen.add(i)
+                if z3.is_const(x):
+                    if x.decl().kind() == z3.Z3_OP_UNINTERPRETED and i not in in_ids:
+                        return False
+                else:
+                    stack.extend(x.children())
+            return True
+        simple, lits = [], []
+        for c in self.pc:
+            if z3.is_const(c) and c.decl().kind() == z3.Z3_OP_UNINTERPRETED:
+                lits.append((c, z3.BoolVal(True)))
+            elif z3.is_not(c) and z3.is_const(c.arg(0)) and c.arg(0).decl().kind() == z3.Z3_OP_UNINTERPRETED:
+                lits.append((c.arg(0), z3.BoolVal(False)))
+            elif only_inputs(c):
+                simple.append(c)
+        s = z3.Solver()
+        s.set('timeout', 5000)
+        s.add(*simple)
+        whole = z3.And(self.pc) if self.pc else z3.BoolVal(True)
+        for _ in range(tries):
+            if s.check() != z3.sat:
+                return None
+            m = s.model()
+            pairs = list(lits)
+            block = []
+            for t in in_ids.values():
+                val = m.eval(t, model_completion=True)
+                pairs.append((t, val))
+                block.append(t != val)
+            for dvars, fn in self.defs:
+                fn(pairs)
+            em = EvalModel(pairs)
+            if z3.is_true(em.eval(whole)):
+                return em
+            if not block:
+                return None
+            s.add(z3.Or(block))
+        return None
+
     def validate(self, sym_out, concrete_fn, what=''):
         """Shim/engine self-check: run the real, unshimmed code on one concrete witness of this path and compare
         with the symbolic result evaluated under the same model.  Mismatch = harness error, not a verdict."""
         from . import shims
-        m = self.witness()
+        if self.optimistic:
+            m = self._eval_witness()
+            if m is None:
+                return
+        else:
+            m = self.witness()
         inp = self.concretise_inputs(m)
         want = self.eval(sym_out, m)
         with shims.unshimmed():
@@ -1170,6 +1271,9 @@ class Explorer:
                     raise EngineLimit("path budget %d exhausted" % self.max_paths)
                 self.prefix = self.pending.pop()
                 self.trace, self.pc, self.inputs, self.choices = [], [], {}, {}
+                self.path_memo = {}
+                self.defs = []
+                self._fresh = 0
                 self.solver = z3.Solver()
                 self.solver.set('timeout', self.timeout_ms)
                 self.model = None
@@ -1202,6 +1306,20 @@ class Explorer:
             _cur = prev
         self.stats['wall_s'] = time.time() - self.t0
         return self.stats
+
+
+def _num_value(x):
+    return x.as_long() if z3.is_int_value(x) else x.as_signed_long()
+
+
+class EvalModel:
+    """model given by an explicit assignment; evaluation by substitution + simplification"""
+
+    def __init__(self, pairs):
+        self.pairs = pairs
+
+    def eval(self, t, model_completion=False):
+        return z3.simplify(z3.substitute(t, *self.pairs)) if self.pairs else z3.simplify(t)
 
 
 class HarnessError(BaseException):
@@ -1255,6 +1373,13 @@ class ConcreteEx:
         if not (lo <= v <= hi):
             raise HarnessError("replay input %s=%r outside [%r,%r]" % (name, v, lo, hi))
         return v
+
+    def fresh_id(self):
+        self._fresh = getattr(self, '_fresh', 0) + 1
+        return self._fresh
+
+    def lint(self, name, lo, hi):
+        return self.int(name, lo, hi)
 
     def bool(self, name):
         return bool(self._get(name))
